@@ -9,6 +9,7 @@ import (
 	"encoding/binary"
 	"encoding/hex"
 	"fmt"
+	"math"
 	"sort"
 	"time"
 
@@ -129,6 +130,9 @@ func (h *Host) TakeSnapshot(ctx sdk.Context) *Snap {
 		if c.Denom == "stake" {
 			if c.Amount.IsInt64() {
 				s.Bal[hx(addr)] = c.Amount.Int64()
+			} else if h.cfg.WhaleBalance != "" {
+				s.Bal[hx(addr)] = math.MaxInt64 // saturating: whale runs arm no money oracle
+				s.OtherDenoms[hx(addr)] = "big:" + c.Amount.String()
 			} else {
 				s.perr("balance overflow %s", addr)
 			}
@@ -140,6 +144,8 @@ func (h *Host) TakeSnapshot(ctx sdk.Context) *Snap {
 	sup := h.app.BankKeeper.GetSupply(ctx).GetTotal().AmountOf("stake")
 	if sup.IsInt64() {
 		s.Supply = sup.Int64()
+	} else {
+		s.Supply = math.MaxInt64
 	}
 	// parameters straight from the params subspace (not through the service keeper's getters)
 	h.app.GetSubspace(types.ModuleName).GetParamSet(ctx, &s.Params)
@@ -398,7 +404,7 @@ func (s *Snap) Digest() string {
 	}
 	sort.Strings(addrs)
 	for _, a := range addrs {
-		fmt.Fprintf(h, "%s=%d;", a, s.Bal[a])
+		fmt.Fprintf(h, "%s=%d;%s", a, s.Bal[a], s.OtherDenoms[a])
 	}
 	fmt.Fprintf(h, "supply=%d;h=%d;t=%d", s.Supply, s.Height, s.Time.UnixNano())
 	s.digest = hex.EncodeToString(h.Sum(nil))
